@@ -218,7 +218,7 @@ func lastOpen(path string) (k int, marker byte, ended int) {
 				open = -1
 			}
 			ended++
-		case 'H', 'M':
+		case 'H', 'M', 'S':
 			open, marker = n, line[0]
 		}
 	}
@@ -354,6 +354,8 @@ func (r *runner) runShard(shard, nshards int) *workerResult {
 		}
 		// confirm in isolation
 		switch marker {
+		case 'S':
+			res.incon = append(res.incon, fmt.Sprintf("case %d exceeded its time limit OUTSIDE the library (slow generator / oracle of the harness): skipped, no verdict", k))
 		case 'H':
 			hung := 0
 			for i := 0; i < 3; i++ {
@@ -361,6 +363,8 @@ func (r *runner) runShard(shard, nshards int) *workerResult {
 				e, kl := r.spawn(itag, 0, 1, k, 0, 60, 3*time.Minute)
 				if e == 3 || kl {
 					hung++
+				} else if e == 5 {
+					break // slow outside the library when run alone: not a library hang
 				} else {
 					if e == 0 {
 						r.readSummary(itag, res) // whatever the isolated run observed counts
